@@ -34,7 +34,7 @@ FAMILIES = ['cell-cards', 'cell-cards-np', 'data-n', 'data-np-two-cards',
             'filled-cells', 'extra-keywords',
             'zero-first', 'zero-last', 'all-but-one-zero', 'like-but-imp0',
             'like-but-imp1']
-_PER = {'quick': 10, 'thorough': 600}
+_PER = {'quick': 10, 'thorough': 3000}
 
 
 def attach_monitors():
